@@ -16,7 +16,10 @@ def check(repo, rep, tier):
     re_.rule_variable_coverage(cm, rep, 'C01.V2')
     re_.rule_declare_before_use(cm, rep, 'C01.V3')
     re_.rule_head_arguments(cm, rep, 'C01.H1')
+    re_.rule_per_clause_stateless(cm, rep, 'C01.V6')
     rc.rule_body_rules(cm, rep, 'C01.N1', 'all', scope)
     rc.rule_exhaustive(cm, rep, 'C01.T1x')
     re_.rule_emitted_text_parses(cm, rep, 'C01.T1')
     rc.rule_templates_implement_minilanguage(cm, rep, 'C01.B1', depth=3, width=2, scope=2, limit=None if tier == 'thorough' else 1500)
+    rc.rule_list_order(cm, rep, 'C01.L1')
+    rc.rule_compiler_bounded(cm, rep, 'C01.N2', depth=3, scope=3 if tier == 'thorough' else 2)
